@@ -270,9 +270,9 @@ class Workspace(AbstractContextManager):
         if entity_kwargs is None:
             return None
 
-        # Dictionary attributes (metadata, options) must not be shared with the copy
+        # Dictionary (metadata, options) and array attributes must not be shared with the copy
         entity_kwargs = {
-            key: deepcopy(value) if isinstance(value, dict) else value
+            key: deepcopy(value) if isinstance(value, (dict, np.ndarray)) else value
             for key, value in entity_kwargs.items()
         }
 
